@@ -4,7 +4,7 @@
     driver and its tables are not modelled; statement fidelity (part S of the property) is established
     by the correspondence check only (bin/props.d/C06.json). *)
 From Coq Require Import List Bool Arith Strings.Byte.
-From YV Require Import YLex.Keywords YLex.Model YLex.Spec YLex.Proofs.
+From YV Require Import YLex.Keywords YLex.Model YLex.Spec YLex.Proofs YLex.Total YLex.ProofsExt.
 Import ListNotations.
 
 (** White space and comments (block comments, line comments, in any number and order) between two
@@ -49,6 +49,20 @@ Proof. exact quote_dq_total. Qed.
 Theorem C06_quote_sound : forall sty t p, quote sty t = Some p -> part_ok p = true /\ part_text p = t.
 Proof. exact quote_sound. Qed.
 Print Assumptions C06_quote_sound.
+
+(** the same for the argument of an extension statement (prefix:name argument ;) on any statement:
+    the extension name must not begin with a YANG keyword the lexer tests first (checked by
+    [ext_name_ok]; "m:e" passes), and an unquoted argument must not begin like a number (known
+    finding 7) *)
+Theorem C06_extension_argument_roundtrip : forall name j0 a j1 c rest,
+  ext_name_ok name = true -> stmt_ok j0 a j1 = true -> not_numeric_start a = true -> is_term c = true ->
+  lex_begin (name ++ render_junk j0 ++ arg_src a ++ render_junk j1 ++ c :: rest)
+    = Continue ((t_unknown, name) :: arg_toks a ++ [term_tok c]) (accept_ws rest)
+  /\ arg_of ((t_unknown, name) :: arg_toks a ++ [term_tok c]) = Some (arg_text a).
+Proof. exact ext_stmt_roundtrip. Qed.
+Print Assumptions C06_extension_argument_roundtrip.
+Example C06_ext_name_example : ext_name_ok [x6d; x3a; x65] = true.
+Proof. vm_compute. reflexivity. Qed.
 
 (** the token ring is a FIFO for every state call that pushes fewer than 64 tokens, from every head
     position and whatever stale tokens it holds *)
